@@ -23,7 +23,7 @@ TEXTS = ['line one' + CR + 'line two', 'cafe\u0301 (decomposed)', '\u2126\u212b'
          '', None, '\t', 'line1\nline2', '  (  spaced note )  ', 'x' * 40]
 
 
-SPECIAL_IDS = ['e\u0301', '\u212b', "O'NEILL", 'say "x"', 'a]b', '[1]', 'a=b', '*', '.', '..', 'a/b', '@id', '{ns}x', 'a b', "x'y\"z", '-', 'None', '%s', '{0}', '&amp;', '<x>', 'é', '𝄞']
+SPECIAL_IDS = ['STORY%20ONE', 'SHARE 100%', '%d', 'e\u0301', '\u212b', "O'NEILL", 'say "x"', 'a]b', '[1]', 'a=b', '*', '.', '..', 'a/b', '@id', '{ns}x', 'a b', "x'y\"z", '-', 'None', '%s', '{0}', '&amp;', '<x>', 'é', '𝄞']
 
 
 class Gen:
